@@ -35,7 +35,7 @@ class C11(CurveCheck):
         cs.append(Case("subaddr %s %s 2 18 main" % (tv, ts), "corpus"))
         cs.append(Case("subaddr %s %s 0 0 none" % (le(1).hex(), le(1).hex()), "corpus"))
         wallets = [(tv, ts)]
-        for _ in range(2 if q else 40):
+        for _ in range(2 if q else 12):
             wallets.append((le(rng.randrange(L)).hex(), le(rng.randrange(L)).hex()))
         k = 0
         for (v, s) in wallets:
@@ -50,7 +50,7 @@ class C11(CurveCheck):
             for (i, j) in ((0, 0), (0, 1), (1, 0), (2**32 - 1, 2**32 - 1)):
                 cs.append(Case("subaddr %s %s %d %d %s" % (le(v).hex(), le(s).hex(), i, j, NETS[k % 4]), "edge-scalar"))
                 k += 1
-        for _ in range(40 if q else 4000):
+        for _ in range(40 if q else 800):
             v, s = rng.choice(wallets)
             cs.append(Case("subaddr %s %s %d %d %s" % (v, s, rng.getrandbits(rng.choice([1, 8, 16, 32])),
                                                       rng.getrandbits(rng.choice([1, 8, 16, 32])), rng.choice(NETS)), "random"))
